@@ -89,7 +89,8 @@ def trace_function(
 
         # Unpack regular returns
         out_tys = type_to_row(out_obj._ty)
-        if len(out_tys) > 1:
+        # A tuple (also one with a single element) is returned as a row of its elements
+        if len(out_tys) > 0 and out_tys != [out_obj._ty]:
             regular_returns: list[Wire] = list(
                 builder.add_op(ops.UnpackTuple(), out_obj._use_wire(None)).outputs()
             )
